@@ -12,7 +12,6 @@ use std::ffi::CString;
 use std::os::raw::c_char;
 use std::panic::{catch_unwind, AssertUnwindSafe};
 use std::path::{Path, PathBuf};
-use std::time::Instant;
 
 #[allow(improper_ctypes)]
 extern "C" {
@@ -123,6 +122,8 @@ impl Cfg {
             "phonetic" => "avro_phonetic".into(),
             "probhat" => repo_dir().join("data/Probhat.json").to_string_lossy().into_owned(),
             "synth" => gen_dir().join("synth.json").to_string_lossy().into_owned(),
+            // same file name as the bundled layout, another directory, other assignments of plain letter keys
+            "probhat2" => gen_dir().join("alt/Probhat.json").to_string_lossy().into_owned(),
             other => other.to_string(),
         }
     }
@@ -186,6 +187,16 @@ impl Drop for RealConfig {
     fn drop(&mut self) {
         unsafe { riti_config_free(self.ptr) }
     }
+}
+
+/// CPU time consumed by the calling thread, in microseconds.  The per-call time budget of C01 is measured in CPU time of
+/// the calling thread, not wall-clock time: a loaded machine cannot turn a fast call into a slow one.
+pub fn thread_cpu_us() -> u64 {
+    let mut ts = libc::timespec { tv_sec: 0, tv_nsec: 0 };
+    unsafe {
+        libc::clock_gettime(libc::CLOCK_THREAD_CPUTIME_ID, &mut ts);
+    }
+    ts.tv_sec as u64 * 1_000_000 + ts.tv_nsec as u64 / 1000
 }
 
 /// Rendering of one returned `Suggestion` (+ the session flag read right after the call).
@@ -292,7 +303,7 @@ impl Ctx {
         }
     }
 
-    fn finish_obs(&mut self, r: std::thread::Result<Option<Suggestion>>, t0: Instant) -> Obs {
+    fn finish_obs(&mut self, r: std::thread::Result<Option<Suggestion>>, t0: u64) -> Obs {
         let mut o = match r {
             Ok(Some(s)) => render(&s),
             Ok(None) => Obs {
@@ -319,24 +330,24 @@ impl Ctx {
                 }
             }
         }
-        o.us = t0.elapsed().as_micros() as u64;
+        o.us = thread_cpu_us().saturating_sub(t0);
         o
     }
 
     pub fn key(&mut self, code: u16, modifier: u8, sel: u8) -> Obs {
-        let t0 = Instant::now();
+        let t0 = thread_cpu_us();
         let c = self.ctx.as_ref().unwrap();
         let r = catch_unwind(AssertUnwindSafe(|| Some(c.get_suggestion_for_key(code, modifier, sel))));
         self.finish_obs(r, t0)
     }
     pub fn backspace(&mut self, ctrl: bool) -> Obs {
-        let t0 = Instant::now();
+        let t0 = thread_cpu_us();
         let c = self.ctx.as_ref().unwrap();
         let r = catch_unwind(AssertUnwindSafe(|| Some(c.backspace_event(ctrl))));
         self.finish_obs(r, t0)
     }
     pub fn commit(&mut self, index: usize) -> Obs {
-        let t0 = Instant::now();
+        let t0 = thread_cpu_us();
         let c = self.ctx.as_ref().unwrap();
         let r = catch_unwind(AssertUnwindSafe(|| {
             c.candidate_committed(index);
@@ -345,7 +356,7 @@ impl Ctx {
         self.finish_obs(r, t0)
     }
     pub fn finish(&mut self) -> Obs {
-        let t0 = Instant::now();
+        let t0 = thread_cpu_us();
         let c = self.ctx.as_ref().unwrap();
         let r = catch_unwind(AssertUnwindSafe(|| {
             c.finish_input_session();
@@ -354,7 +365,7 @@ impl Ctx {
         self.finish_obs(r, t0)
     }
     pub fn update(&mut self, cfg: &Cfg) -> Obs {
-        let t0 = Instant::now();
+        let t0 = thread_cpu_us();
         let real = RealConfig::new(cfg, &self.user_home);
         let c = self.ctx.as_mut().unwrap();
         let r = catch_unwind(AssertUnwindSafe(|| {
